@@ -15,6 +15,7 @@ import (
 	"sync"
 
 	"github.com/sasha-s/go-deadlock"
+	"github.com/zilliztech/milvus-cdc/core/api"
 
 	"verifharness/internal/vf"
 )
@@ -162,6 +163,14 @@ func main() {
 		run.Assumptions = append(run.Assumptions, "end-to-end part: fakemilvus is the downstream; a drop re-issued after a KILL is tolerated (counted), quiescence = sentinel rows accepted on every live stream by the current incarnation")
 	}
 	vf.CollectRaces(run)
+	if p := os.Getenv("C20R_DUMP"); p != "" && *fProp == "C20R" {
+		// the reader half of C20's event clause is merged into the writer rig's run
+		if err := run.Dump(p); err != nil {
+			fmt.Fprintln(os.Stderr, "C20R_DUMP:", err)
+			os.Exit(70)
+		}
+		os.Exit(0)
+	}
 	if p := os.Getenv("C13D_DUMP"); p != "" && *fProp == "C13D" {
 		// the manager half of C13's duplicate-notification clause is merged into the catalog rig's run
 		if err := run.Dump(p); err != nil {
@@ -257,6 +266,71 @@ func init() {
 			run.Floor("interleavings", run.Pick(80, 1500))
 			run.Floor("cases_with_forwarded_packs", 1)
 			run.Floor("filtered_junk_messages", 1)
+		}}
+	props["C20R"] = &propDef{level: "exploration", workers: 6, conc: 6,
+		rule:   "reader half of C20's clause 'every create collection / partition event ... carrying the source operation's timestamp': the dml catalogs (collections and partitions that do not exist downstream yet, so that the real channel manager emits create events, also for partitions created later than their collection) run through the real manager; every create-collection event must be stamped with the collection's creation time and every create-partition event with the PARTITION's creation time, and name the source names. Non-trivial = a case with at least one create event; distinct by (events, interleaving).",
+		assume: []string{"the rig passes distinct creation times for a collection and each of its partitions (CreateTime / PartitionCreatedTimestamp), as rootcoord writes them"},
+		nCases: func(r *vf.Run) int { return r.Pick(60, 1200) },
+		gen: func(seed int64, idx int) *Case {
+			o := dmlOpts
+			o.packsMin, o.packsMax = 5, 9
+			return genCase(seed, idx, o)
+		},
+		check: func(run *vf.Run, res *caseResult) {
+			rt := res.rt
+			rt.mu.Lock()
+			evs := append([]apiEv{}, rt.apiEvs...)
+			rt.mu.Unlock()
+			creates := 0
+			for _, e := range evs {
+				switch api.ReplicateAPIEventType(e.Type) {
+				case api.ReplicateCreateCollection:
+					for _, col := range rt.c.Colls {
+						if col.SrcID != e.CollID {
+							continue
+						}
+						creates++
+						run.Count("create_collection_events", 1)
+						if e.Ts != col.CreateTs {
+							run.Violate("C20/EvCreateCollection/replication-timestamp", fmt.Sprintf("create-collection event of %s (id %d) carries timestamp %d, the collection was created at %d", col.Name, col.SrcID, e.Ts, col.CreateTs), replayOf(res, nil))
+						}
+						if e.CollName != col.Name {
+							run.Violate("C20/EvCreateCollection/collection-name", fmt.Sprintf("create-collection event of id %d names %q, the source collection is %q", col.SrcID, e.CollName, col.Name), replayOf(res, nil))
+						}
+					}
+				case api.ReplicateCreatePartition:
+					for _, col := range rt.c.Colls {
+						if col.SrcID != e.CollID {
+							continue
+						}
+						for _, p := range col.Parts {
+							if p.SrcID != e.PartID {
+								continue
+							}
+							creates++
+							run.Count("create_partition_events", 1)
+							if p.CreateTs != col.CreateTs {
+								run.Count("create_partition_events_of_partitions_created_later_than_their_collection", 1)
+							}
+							if e.Ts != p.CreateTs {
+								run.Violate("C20/EvCreatePartition/replication-timestamp", fmt.Sprintf("create-partition event of %s.%s (partition id %d) carries timestamp %d; the partition was created at %d (its collection at %d)", col.Name, p.Name, p.SrcID, e.Ts, p.CreateTs, col.CreateTs), replayOf(res, nil))
+							}
+							if e.PartName != p.Name || e.CollName != col.Name {
+								run.Violate("C20/EvCreatePartition/names", fmt.Sprintf("create-partition event of partition id %d names %q.%q, the source names are %q.%q", p.SrcID, e.CollName, e.PartName, col.Name, p.Name), replayOf(res, nil))
+							}
+						}
+					}
+				}
+			}
+			run.Count("cases_quiescent", 1)
+			if creates > 0 {
+				run.Nontrivial(fmt.Sprintf("%d/%s", creates, sigOfCase(rt)))
+			}
+		},
+		floors: func(run *vf.Run) {
+			run.Floor("cases_quiescent", run.Pick(20, 400))
+			run.Floor("create_collection_events", run.Pick(10, 200))
+			run.Floor("create_partition_events_of_partitions_created_later_than_their_collection", run.Pick(10, 200))
 		}}
 	props["C13D"] = &propDef{level: "exploration", workers: 6, conc: 6,
 		rule: "manager half of C13's clause 'being notified twice about the same object has no further effect': the dml catalogs and scripts (equal channel counts, no re-created partitions) with duplicated notifications: about half of the StartReadCollection / AddPartition calls are made TWICE AT THE SAME TIME (two goroutines behind a start barrier: list path and watch path, or two puts of one object in quick succession), and the anchor collection and its partitions are announced again while data flows; every lookup of the downstream catalog takes a seeded 0-1.5 ms (the window between the 'already replicated?' test and the registration). Judged: of two simultaneous calls at least one succeeds, no source vchannel is registered with the dispatcher a second time, and the replicated stream is still complete, duplicate-free and ordered (the C01 oracle); the error with which the manager answers a start for a collection it already replicates is counted (the catalog rig mirrors it and judges the reader). Non-trivial = a case with at least one simultaneous pair; distinct by (collections, twins, interleaving).",
